@@ -1,4 +1,4 @@
-import CashewsVerif.Lemmas.LockInv
+import CashewsVerif.Lemmas.LockExamples
 /-
 C06 — `cache.lock` / `@locked` give mutual exclusion with owner-only release.
 
@@ -196,12 +196,6 @@ theorem acquisition_liveness (C : LockContract B Ok keyOk) {s0 : LockSt σ}
   simp only [step, ht, r1, if_true, setTask_tasks, true_and]
   exact r2
 
-/-- the protocol over the empty in-memory backend model is a start state -/
-theorem mem_start (cap : Nat) (K : List Key) (hK : K.length ≤ cap) :
-    Start memOps (MemOk K) (init (Mem.init cap)) :=
-  ⟨⟨⟨by simp [Mem.init, Store.keys, init], by simp [Mem.init, Store.keys, init]⟩, hK⟩,
-    fun k => by simp [memOps, memOwner, init, Mem.init], fun _ => rfl⟩
-
 /-- For the in-memory model "no live lock" is a statement about the raw store: the key is absent
 **or its stored deadline is `<= now`** — an expired entry that nobody purged does not block. -/
 theorem acquisition_liveness_mem (cap : Nat) (K : List Key) (hK : K.length ≤ cap)
@@ -297,14 +291,33 @@ theorem mutual_exclusion_mem (cap : Nat) (K : List Key) (hK : K.length ≤ cap)
     (h2 : insideKey (run memOps (init (Mem.init cap)) tr) t2 key = true) : t1 = t2 :=
   mutual_exclusion (memContract K) (mem_start cap K hK) tr htr hlease key t1 t2 h1 h2
 
+/-! ### the contract is needed: the two repaired defects, as backends, break the theorems -/
+
+/-- With a token-blind `unlock` (defect D7) the stronger mutual-exclusion statement is FALSE: a holder
+that overstayed removes the next holder's lock when it leaves, and a third task gets in while the
+second is inside and within its lease.  (So `mutual_exclusion_within_lease` really uses the
+owner-only clause of the contract.) -/
+theorem token_blind_unlock_breaks_exclusion :
+    ¬ ∀ (tr : List Act) (key t1 t2 : Nat), t1 ≠ t2 →
+      insideKey (run tokenBlindOps (init TtlMap.init) tr) t1 key = true →
+      insideKey (run tokenBlindOps (init TtlMap.init) tr) t2 key = true →
+      ¬ (withinLease tokenBlindOps (run tokenBlindOps (init TtlMap.init) tr) t1 = true ∧
+         withinLease tokenBlindOps (run tokenBlindOps (init TtlMap.init) tr) t2 = true) := by
+  intro h
+  exact h trThree 0 1 2 (by decide) (by decide) (by decide) (by decide)
+
+/-- With a conditional write that tests raw membership (defect D1) acquisition liveness is FALSE:
+after the lock's ttl has elapsed a waiter is still refused, however long it waits, as long as nobody
+purges. -/
+theorem raw_membership_set_lock_breaks_liveness :
+    outs rawMembershipOps (init TtlMap.init)
+      [.enter 0 0 (some 8) true, .attempt 0, .enter 1 0 (some 8) true, .tick 8, .attempt 1,
+       .tick 100, .attempt 1] =
+    [.unit, .acquired, .unit, .unit, .retry, .unit, .retry] := by decide
+
 /-! ### non-vacuity: the model does something, and the premises are satisfiable -/
 
 section Examples
-
-/-- two tasks on key 0 (ttl 1 s), the second waits; the first leaves in time; the second gets in -/
-def trGood : List Act :=
-  [.enter 0 0 (some 8) true, .attempt 0, .enter 1 0 (some 8) true, .attempt 1, .tick 4,
-   .foreignUnlock 0 7, .leave 0 .exc, .attempt 1, .probe 0, .leave 1 .normal, .probe 0]
 
 example : outs memOps (init (Mem.init 10)) trGood =
     [.unit, .acquired, .unit, .retry, .unit, .bool false, .released true, .acquired, .bool true,
@@ -323,14 +336,10 @@ example : ∀ a ∈ trGood, a.keysIn (· ∈ [0, 1]) := by
   simp only [trGood, List.mem_cons, List.mem_nil_iff, or_false] at ha
   rcases ha with h | h | h | h | h | h | h | h | h | h | h <;> subst h <;> simp [Act.keysIn]
 
-/-- an overstayer: task 0 holds key 0 past its ttl (1 s), task 1 acquires at the deadline with NO
-purge in between (`acquisition_liveness`), both are inside at once, only task 1 is within its lease
-(`mutual_exclusion_within_lease` is not vacuous); task 0's late unlock answers False and task 1
-still owns the lock (`released_on_every_exit`, `foreign_unlock_noop`); task 2 still cannot enter -/
-def trOverstay : List Act :=
-  [.enter 0 0 (some 8) true, .attempt 0, .enter 1 0 (some 8) true, .attempt 1, .tick 8, .attempt 1,
-   .leave 0 .cancel, .enter 2 0 (some 8) false, .attempt 2, .probe 0]
-
+/-- the overstayer trace `trOverstay`: task 0 holds key 0 past its ttl (1 s), task 1 acquires at the
+deadline with NO purge in between (`acquisition_liveness`), both are inside at once, only task 1 is
+within its lease (`mutual_exclusion_within_lease` is not vacuous); task 0's late unlock answers False
+and task 1 still owns the lock (`released_on_every_exit`, `foreign_unlock_noop`); task 2 cannot enter -/
 example : outs memOps (init (Mem.init 10)) trOverstay =
     [.unit, .acquired, .unit, .retry, .unit, .acquired, .released false, .unit, .locked, .bool true] := by
   decide
@@ -342,6 +351,11 @@ example :
     -- the expired entry of task 0 was still stored (unpurged) when task 1 attempted:
     (Store.lookup (run memOps (init (Mem.init 10)) (trOverstay.take 5)).be.store 0).isSome = true := by
   decide
+
+/-- on a contract-satisfying backend the trace that breaks the token-blind one is harmless -/
+example :
+    let s := run ttlOps (init TtlMap.init) trThree
+    insideKey s 1 0 = true ∧ insideKey s 2 0 = false := by decide
 
 /-- a lock without ttl never expires; a cancelled waiter gives up without touching the lock -/
 example : outs ttlOps (init TtlMap.init)
